@@ -767,3 +767,23 @@ Qed.
 (* a failing command has no output: the result type of the commands carries output only in COk *)
 Lemma error_no_output (r : cresult str) k d : r = CErr k d -> stdout_of r = [].
 Proof. intros ->. reflexivity. Qed.
+
+Lemma repaired_np_all cfg lenient ds m :
+  balance_table_safe cfg ds <> CPanic m /\ check_cmd_safe lenient ds <> CPanic m /\ print_cmd_safe lenient ds <> CPanic m.
+Proof. split; [apply balance_table_safe_np|]. split; [apply check_cmd_safe_np|apply print_cmd_safe_np]. Qed.
+
+Lemma error_empty_stdout_all cfg tc lenient ds k d :
+  (balance_csv cfg ds = CErr k d -> stdout_of (balance_csv cfg ds) = []) /\
+  (balance_text cfg tc ds = CErr k d -> stdout_of (balance_text cfg tc ds) = []) /\
+  (print_cmd lenient ds = CErr k d -> stdout_of (print_cmd lenient ds) = []) /\
+  (balance_csv_safe cfg ds = CErr k d -> stdout_of (balance_csv_safe cfg ds) = []) /\
+  (print_cmd_safe lenient ds = CErr k d -> stdout_of (print_cmd_safe lenient ds) = []).
+Proof. repeat split; apply error_no_output. Qed.
+
+Lemma clean_run_examples :
+  clean_run_b true ClOK false false = true /\ clean_run_b true ClERR true true = true /\
+  clean_run_b true ClERR false true = false /\ clean_run_b true ClERR true false = false /\
+  clean_run_b false ClERR false true = true /\
+  clean_run_b true ClPANIC true true = false /\ clean_run_b true ClHANG true false = false /\
+  clean_run_b true ClOOM true true = false /\ clean_run_b false ClEXIT true true = false.
+Proof. repeat split. Qed.
